@@ -54,8 +54,13 @@ def gen_type(rnd, depth, comparable=False):
             return "struct{ A %s `json:\"a\"`; B %s }" % (gen_type(rnd, depth - 1), gen_type(rnd, 0))                           # field tag
         return "struct{ A %s; B %s }" % (gen_type(rnd, depth - 1), gen_type(rnd, 0))
     if k == "generic":
-        if rnd.random() < 0.5:
+        r = rnd.random()
+        if r < 0.4:
             return "Box[%s]" % gen_type(rnd, depth - 1)
+        if r < 0.55:
+            return "List[%s]" % gen_type(rnd, depth - 1)            # instance of a generic alias (type List[T any] = []T)
+        if r < 0.7:
+            return "BoxA[%s]" % gen_type(rnd, depth - 1)            # instance of a generic alias of a generic type
         return "Pair[%s, %s]" % (gen_type(rnd, 0, comparable=True), gen_type(rnd, depth - 1))
     return "interface{ M(%s) %s }" % (gen_type(rnd, 0), gen_type(rnd, 0))
 
@@ -78,7 +83,7 @@ def type_package(rnd, idx):
         t = gen_type(rnd, rnd.choice([1, 2, 2, 3]))
         if t not in types and t not in ("context.Context",):
             types.append(t)
-    body = "type Local1 struct{ X int }\ntype Local2 string\ntype Box[T any] struct{ V T }\ntype Pair[K comparable, V any] struct {\n\tK K\n\tV V\n}\ntype R%d struct{ N int }\n" % idx
+    body = "type Local1 struct{ X int }\ntype Local2 string\ntype Box[T any] struct{ V T }\ntype Pair[K comparable, V any] struct {\n\tK K\n\tV V\n}\ntype List[T any] = []T\ntype BoxA[T any] = Box[T]\ntype R%d struct{ N int }\n" % idx
     provs = []
     for i, t in enumerate(types[:nv]):
         body += "func NewV%d_%d() (v %s) { return }\n" % (idx, i, t)
